@@ -135,7 +135,7 @@ class _PW:
             v = self.st.env.get(node.id)
             if isinstance(v, (Ref, Arr)):
                 arr = self.E.deref(v, self.st)
-                if arr.rank != self.rank or (self.sel_mode and not inside):
+                if arr.rank != self.rank or arr.elem == "complex" or (self.sel_mode and not inside):
                     raise _NotPointwise()
                 self.leaves.append(arr)
                 return ast.Subscript(value=ast.Name(id=node.id, ctx=ast.Load()), slice=self.idx(), ctx=ast.Load())
@@ -145,6 +145,15 @@ class _PW:
         if isinstance(node, ast.Attribute):
             if node.attr == "pi" and self.path(node.value) == "np":
                 return node
+            if node.attr in ("real", "imag") and isinstance(node.value, ast.Name):
+                # real / imaginary part of a complex array leaf: creal(X[k]) / cimag(X[k]) of the DSL
+                v = self.st.env.get(node.value.id)
+                if isinstance(v, (Ref, Arr)):
+                    arr = self.E.deref(v, self.st)
+                    if arr.elem == "complex" and arr.rank == self.rank and not (self.sel_mode and not inside):
+                        self.leaves.append(arr)
+                        el = ast.Subscript(value=ast.Name(id=node.value.id, ctx=ast.Load()), slice=self.idx(), ctx=ast.Load())
+                        return ast.Call(func=ast.Name(id="creal" if node.attr == "real" else "cimag", ctx=ast.Load()), args=[el], keywords=[])
             raise _NotPointwise()
         if isinstance(node, ast.BinOp) and isinstance(node.op, (ast.Add, ast.Sub, ast.Mult, ast.Div, ast.Pow)):
             l, r = self.go(node.left, inside), self.go(node.right, inside)
